@@ -162,7 +162,7 @@ pub const THOROUGH: Limits = Limits { long: 10_000, huge: 1_000_000 };
 // ---------------------------------------------------------------------------
 // float classes
 
-pub const FLOAT_CLASSES: [&str; 9] = [
+pub const FLOAT_CLASSES: [&str; 10] = [
     "uniform-bits",
     "subnormal",
     "special-mantissa",
@@ -172,6 +172,7 @@ pub const FLOAT_CLASSES: [&str; 9] = [
     "near-power-of-two",
     "extreme",
     "small-decimal",
+    "product-seam",
 ];
 
 fn round_u64_to_bits(fmt: Fmt, v: u64) -> u64 {
@@ -187,7 +188,7 @@ pub fn float_of(fmt: Fmt, sel: u16, a: u64, b: u64) -> (u64, &'static str) {
     let mb = fmt.mbits();
     let mmask = (1u64 << mb) - 1;
     let emax = (1u64 << fmt.ebits()) - 2; // largest finite biased exponent
-    let c = pick_w(sel, &[30, 8, 10, 10, 10, 8, 8, 8, 8]);
+    let c = pick_w(sel, &[29, 8, 10, 10, 10, 8, 8, 8, 7, 2]);
     let bits = match c {
         0 => a % inf,
         1 => a & mmask,
@@ -252,6 +253,23 @@ pub fn float_of(fmt: Fmt, sel: u16, a: u64, b: u64) -> (u64, &'static str) {
             9 => 3,
             k => edge_float(fmt, k - 10),
         },
+        9 => {
+            // floats whose short decimal form w * 10^q sits at a product seam of the disguised fast path
+            // (w * 10^(q - max_fast) next to 2^24 / 2^53 / 2^63 / 2^64)
+            let (max_fast, max_s, mant_limit): (i64, u32, u128) = match fmt {
+                Fmt::F32 => (10, 7, 1u128 << 24),
+                Fmt::F64 => (22, 15, 1u128 << 53),
+            };
+            let s = 1 + ((a >> 8) % (max_s as u64 + 2)) as u32;
+            let targets: [u128; 5] = [mant_limit, mant_limit * 2, 1u128 << 63, 1u128 << 64, (1u128 << 64) + mant_limit];
+            let t = targets[(a % 5) as usize];
+            let w = ((t / 10u128.pow(s.min(19))) as i128 + (b % 9) as i128 - 4).max(1);
+            let txt = format!("{}e{}", w, max_fast + s as i64);
+            match fmt {
+                Fmt::F32 => txt.parse::<f32>().unwrap().to_bits() as u64,
+                Fmt::F64 => txt.parse::<f64>().unwrap().to_bits(),
+            }
+        }
         _ => {
             // floats nearest to short decimals d.ddd (1..6 digits) * 10^k, |k| small
             let digs = 1 + (b % 6) as u32;
@@ -758,7 +776,29 @@ pub fn g_d(fmt: Fmt, r: &Recipe) -> Case {
 // ---------------------------------------------------------------------------
 // G-E algorithm seams
 
+/// Product seams of the disguised fast path: w * 10^s right at 2^mantissa_bits+1, 2^63, 2^64 (the
+/// checked multiplication and the `<= MAX_MANTISSA_FAST_PATH` test), with q = max_exponent_fast + s.
+pub fn g_e_product(fmt: Fmt, r: &Recipe) -> Case {
+    let (max_fast, max_s, mant_limit): (i64, u32, u128) = match fmt {
+        Fmt::F32 => (10, 7, 1u128 << 24),
+        Fmt::F64 => (22, 15, 1u128 << 53),
+    };
+    let s = 1 + (r.k[0] % (max_s + 2)); // one or two past the disguised limit as well
+    let targets: [u128; 6] = [mant_limit, mant_limit * 2, 1u128 << 63, 1u128 << 64, (1u128 << 64) + mant_limit, 1u128 << 32];
+    let t = targets[(r.k[1] % 6) as usize];
+    let p = 10u128.pow(s.min(19));
+    let base = t / p;
+    let delta = (r.k[2] % 9) as i128 - 4;
+    let w = (base as i128 + delta).max(1) as u128;
+    let w = w.min(u64::MAX as u128) as u64;
+    let q = max_fast + s as i64;
+    Case { int: w.to_string().into_bytes(), frac: vec![], exp: q as i32, family: "G-E seam", variant: "w*10^s at a product seam", layout: "integer-only", expect: None }
+}
+
 pub fn g_e(fmt: Fmt, r: &Recipe) -> Case {
+    if r.sel[6] >= 0xC000 {
+        return g_e_product(fmt, r);
+    }
     let specials_w: [u64; 14] = [
         1 << 24,
         1 << 53,
@@ -1338,7 +1378,8 @@ pub fn g_n(r: &Recipe) -> Case {
     for i in keep_from..limbs {
         l[i] = n0.l[i];
     }
-    l[0] = 1 + (r.k[2] as u64 % 1000);
+    // the bottom limb: small and non-zero, or zero as well (then the integer is a multiple of 2^64)
+    l[0] = if r.k[2] % 4 == 0 { 0 } else { 1 + (r.k[2] as u64 % 1000) };
     if r.k[3] % 3 == 0 && keep_from > 2 {
         l[keep_from / 2] = 1 + (r.k[3] as u64 >> 2); // one isolated limb inside the run
     }
